@@ -209,6 +209,30 @@ Section WholeFile.
     - eapply Forall_impl; [|exact HR]. unfold in_range, int16_range. cbn. lia.
   Qed.
 
+  (* ---- 16-bit PCM into any requested dtype: the stored samples, cast *)
+  Lemma pcm16_file_any_dtype_l be d samples extra :
+    layout hs pre Pcm 2 (Some (order_name be)) chans count rate filler ->
+    len samples = count * chans -> Forall int16_range samples ->
+    sphere_read_bs bs
+      (std_file hs pre Pcm 2 (Some (order_name be)) chans count rate filler
+                (encode_items 2 be samples ++ extra)) (Some d)
+    = Decoded false d (shape_of count chans) (map Some (map (cast d) samples)).
+  Proof.
+    intros L Ls HR. rewrite std_file_read by assumption. destruct L.
+    set (h := std_header Pcm 2 (Some (order_name be)) chans count rate).
+    assert (HP : params_of h (Some d) = Some
+              {| p_coding := Pcm; p_size := 2; p_count := count; p_chans := chans; p_bits := 16; p_signed := true;
+                 p_be := be; p_convert := false; p_short := false; p_dtype := d |}).
+    { unfold params_of, h, std_header. cbn [h_size h_coding h_count h_chans h_order h_short].
+      destruct in_types_values as (_ & V2 & _). rewrite V2. rewrite order_name_be.
+      unfold convert_rule. change (is_law Pcm) with false. rewrite andb_false_r. reflexivity. }
+    unfold copy_samples.
+    rewrite (pcm_roundtrip_l h (Some d) _ HP) with (samples := samples) (extra := extra);
+      cbn [h_chans h_count h_short h_size h std_header p_convert p_signed p_be p_dtype]; try lia; try reflexivity.
+    all: try (apply chunk_nonempty; assumption); try (apply chunk_concat; assumption); try assumption.
+    eapply Forall_impl; [|exact HR]. unfold in_range, int16_range. cbn. lia.
+  Qed.
+
   (* ---- truncated 16-bit PCM: warning, only the complete frames present *)
   Lemma pcm16_file_truncated_l be samples partial n :
     layout hs pre Pcm 2 (Some (order_name be)) chans count rate filler ->
